@@ -4,7 +4,7 @@
    (its first occurrence) - recursively, to any depth -, any other value under k replaces that entry; an object which
    is not addressed - a sibling, an object inside a container or inside a plain object, at any depth - is restored
    with its own state and nothing else. *)
-From PW Require Import Pickle.State Pickle.StateLoops Pickle.StateSteps Pickle.StateProofs.
+From PW Require Import Pickle.State Pickle.StateLoops Pickle.StateSteps Pickle.StateProofs Pickle.Announce.
 Open Scope Z_scope.
 
 (* every graph, every patch dictionary (nested to any depth): exactly the addressed objects are patched *)
@@ -12,6 +12,12 @@ Theorem C15_patches_reach_exactly_the_addressed_objects :
   forall g p, announced_structurally g ->
     exists s, load g p = inr s /\ restored s = spec g (top_patches g p).
 Proof. intros g p H. destruct (load_spec g p H) as [s [A [B _]]]. exists s. split; assumption. Qed.
+
+(* ... in particular on the syntactic class [tidy] (Pickle/Announce.v): distinct instances, attribute references only to the
+   object itself or to objects it is nested in *)
+Theorem C15_tidy_graphs_patched_exactly :
+  forall g p, tidy g -> exists s, load g p = inr s /\ restored s = spec g (top_patches g p) /\ clean_end g p s.
+Proof. intros g p T. apply load_spec. apply tidy_announced_structurally. exact T. Qed.
 
 (* no residue: after the load the per-thread stack is empty, the cursor back at -1 - or the patches given for a
    top-level object which takes none (a list, a plain object) are still where __enter__ put them, to be discarded
@@ -45,6 +51,7 @@ Proof.
 Qed.
 
 Print Assumptions C15_patches_reach_exactly_the_addressed_objects.
+Print Assumptions C15_tidy_graphs_patched_exactly.
 Print Assumptions C15_no_residue.
 Print Assumptions C15_unaddressed_positions_ignore_patches.
 Print Assumptions C15_refuted_dict_patch_for_a_child_that_is_only_referred_to.
